@@ -2366,11 +2366,12 @@ class sptensor:
             assert False, "Number of subscripts and number of values do not match!"
 
         # Remove duplicates and print warning if any duplicates were removed
-        newsubs, idx = np.unique(newsubs, axis=0, return_index=True)
+        # (the last of several assignments to one subscript wins, as for a dense tensor)
+        newsubs, idx = np.unique(newsubs[::-1], axis=0, return_index=True)
         if newsubs.shape[0] != newnnz:
             warnings.warn("Duplicate assignments discarded")
 
-        newvals = newvals[idx]
+        newvals = newvals[::-1][idx]
 
         # Find which subscripts already exist and their locations
         _, tf = tt_ismember_rows(newsubs, self.subs)
